@@ -1,4 +1,5 @@
 import PcfgVerif.Model.Scorer
+import PcfgVerif.Properties.C03
 import PcfgVerif.Properties.ScoreCoreA
 import PcfgVerif.Properties.ScoreCoreB
 import PcfgVerif.Properties.C13Witness
@@ -83,5 +84,24 @@ theorem C13_outside_domain (gt : Nat → Nat → Bool) (limit : Nat) (omenOk : B
     toStr C13Witness.pw ∉ productSpec C13Witness.up C13Witness.E [] [("A4", 0), ("C4", 0), ("D1", 0)] ∧
     ¬ CaseInvAll C13Witness.titleU C13Witness.up C13Witness.pw :=
   ⟨C13Witness.score_nonzero gt limit omenOk, C13Witness.guesser_emits_other.2, C13Witness.not_caseInv⟩
+
+/-- **the promise for every trained ruleset, with no hypothesis about the ruleset**: train on any list (`Trainer.train`), write the
+lists with any coverage; the scorer reads `scoreGOf`, the guesser `viewOf` (`Agree` between the two is `Trainer.trained_agree`).
+Then for *every* candidate string — in the training list or not — and whatever multi-word table the scorer's own detector holds, a
+non-zero score is the probability of a pre-terminal of the guesser's grammar that has the string among its guesses.  Remaining
+hypotheses: the domain clause (`CaseInvAll`, `LenPres`) and the tokeniser's `isalpha` on `A`–`Z` / `0`–`9`. -/
+theorem C13_trained_promise (U : UEnv) (upper : Char → List Char) (cfg : MWCfg) (pws : List CPs) (cov : Rat)
+    (isAlpha : Nat → Bool) (hcap : ∀ c, 65 ≤ c → c ≤ 90 → isAlpha c = true) (hdig : ∀ c, 48 ≤ c → c ≤ 57 → isAlpha c = false)
+    (le gt : Rat → Rat → Bool) (limit : Rat) (t : MWTable) (pw : CPs) (hne : pw ≠ [])
+    (hl : LenPres U pw) (hsc : ScalarCPs pw) (hcase : CaseInvAll U upper pw) (omenOk : Bool)
+    (hnz : (score (· * ·) gt 1 0 limit (Trainer.scoreGOf cov pws.length (Trainer.train U cfg pws)) (parse U cfg t pw) omenOk).prob ≠ 0) :
+    ∃ (reps : List String) (bp : Rat) (idx : List Nat),
+      (reps, bp) ∈ (Trainer.viewOf isAlpha cov pws.length (Trainer.train U cfg pws)).bases ∧ idx.length = reps.length ∧
+      toStr pw ∈ productSpec upper (Trainer.viewOf isAlpha cov pws.length (Trainer.train U cfg pws)).E [] (mkPT reps idx) ∧
+      probFold ⟨le, (· * ·)⟩ bp (reps.map (Trainer.viewOf isAlpha cov pws.length (Trainer.train U cfg pws)).colP) idx =
+        (score (· * ·) gt 1 0 limit (Trainer.scoreGOf cov pws.length (Trainer.train U cfg pws)) (parse U cfg t pw) omenOk).prob :=
+  C13_promise C03.ratCMon le gt limit U upper cfg t pw hne hl hsc hcase _ _
+    (Trainer.trained_agree isAlpha hcap hdig cov pws.length _
+      (Trainer.train_lenok U cfg (·.masks) (·.masks) (fun _ _ => rfl) rfl pws)) omenOk hnz
 
 end Pcfg.C13
